@@ -150,6 +150,8 @@ class Spy(object):
         self.main_renames = 0
         self.armed = None              # abspath of the main file whose next os.open fails
         self.fired = 0                 # injected os.open failures (0 or 1)
+        self.cur_op = None             # index of the op being executed
+        self.fault_op = None           # ... when the creation of the new main file was made to fail
         self.surfaced = None           # {"op": k, "exc": name, "nw_before": [...]} when an exception left the runner
         self.overwrites = []           # renames that overwrote a NON-oldest copy holding records: [log, name, ids]
         self.legit_dropped = None      # per log: highest record id discarded by overwriting the OLDEST copy
@@ -189,6 +191,7 @@ def run_proc(case, ops, po, prefix, t0, spy, crash_at=None):
             store.advanceStamp(op[1] * DT)
             continue
         p = po[k]
+        spy.cur_op = k
         nw_before = list(spy.nw)
         for j, act in enumerate(p["acts"]):
             if act is None:
@@ -297,6 +300,7 @@ def install_spies(spy):
         if openMode == 'w+':
             spy.opens += 1
             if spy.fail_open is not None and spy.opens == spy.fail_open:
+                spy.fault_op = spy.cur_op
                 raise IOError(24, "injected open failure", filename)
         return real_ocfn(filename, openMode, binary)
 
@@ -304,6 +308,7 @@ def install_spies(spy):
         if spy.armed is not None and isinstance(path, str) and os.path.abspath(path) == spy.armed:
             spy.armed = None
             spy.fired += 1
+            spy.fault_op = spy.cur_op
             raise OSError(24, "injected: too many open files", path)
         return real_osopen(path, flags, *pa, **kwa)
 
@@ -399,7 +404,7 @@ def run_case(case, workdir, child=False):
     finally:
         undo()
     return {"files": read_files(case, prefix), "sizes": sizes_of(pl), "hsz": HSZ, "nwritten": list(spy.nw),
-            "surfaced": spy.surfaced, "opens": spy.opens, "fired": spy.fired,
+            "surfaced": spy.surfaced, "opens": spy.opens, "fired": spy.fired, "fault_op": spy.fault_op,
             "spy": {"flushed": spy.flushed, "cycles": spy.cycles, "rot_at": spy.rot_at,
                     "overwrites": spy.overwrites, "legit_dropped": spy.legit_dropped, "renames": spy.renames}}
 
